@@ -23,6 +23,24 @@ CLAIMS = {
  "C19": dict(engine="core", design="4, 3.6",
    text="Same Core.tla: loop-started/stopped and module-started/stopped notifications are generated by the modelled transitions and travel as ordinary mailbox messages to RUNNING/PAUSED subscribers; replay compares for every handler invocation the notifications received (topic, sender, system flag, no payload) one-to-one with the spec's.",
    note='Bounded: 2-3 modules, <=2 payloads in flight, mailbox capacity 2-3, callback nesting <=2; one context per thread. Poll batches are chosen by the program through a wrapped epoll_wait (the really-ready set is compared). Trusted: TLC, dot parser, driver projection, a few white-box reads (running_modules, quit flag, mailbox descriptor, poll-source owner).'),
+ "C03": dict(engine="core", design="4, 3.6",
+   text="Same Core.tla with descriptor and (virtual) timer sources next to pub/sub mailboxes: the poll batch (which ready sources, in which order, up to 2-3 per batch) is an argument of the dispatch step; one-shot sources, auto-close descriptors, timers expiring, errno values left behind by handlers, pause/stop/source deregistration from a handler of the same batch, quit and the final flush. Replay makes the wrapped epoll_wait return exactly the prescribed batch after checking that the really-ready set equals the spec's, and compares which handler runs with which events and userdata, the dispatch return values and the loop state.",
+   note='Bounded: 2-3 modules, <=2 payloads in flight, mailbox capacity 2-3, callback nesting <=2; one context per thread. Poll batches are chosen by the program through a wrapped epoll_wait (the really-ready set is compared). Trusted: TLC, dot parser, driver projection, a few white-box reads (running_modules, quit flag, mailbox descriptor, poll-source owner).'),
+ "C09": dict(engine="core", design="4, 3.6",
+   text='Same Core.tla: each module holds a set of sources keyed by (kind, key) plus one subscription per pattern; register/deregister for descriptor, timer (periods 2^32 apart), signal, path, pid and threshold (pairs with equal sums) sources and subscriptions on a module in every state; TLC checks the keyed-set and dropped-on-stop monitors; replay compares return codes (EEXIST) and the per-kind and total counts reported by m_mod_src_len after every call.',
+   note='Bounded: 2-3 modules, <=2 payloads in flight, mailbox capacity 2-3, callback nesting <=2; one context per thread. Poll batches are chosen by the program through a wrapped epoll_wait (the really-ready set is compared). Trusted: TLC, dot parser, driver projection, a few white-box reads (running_modules, quit flag, mailbox descriptor, poll-source owner).'),
+ "C13": dict(engine="core", design="4, 3.6",
+   text="Same Core.tla: push_evt() as coded (event joins the batch queue; high priority or normal-at-batch-size triggers one invocation with the whole queue; low priority never triggers); subscriptions with low/normal/high priority, batch sizes, stop, quit + final flush; replay compares every invocation's event list and the batch-queue length after every step.",
+   note='Bounded: 2-3 modules, <=2 payloads in flight, mailbox capacity 2-3, callback nesting <=2; one context per thread. Poll batches are chosen by the program through a wrapped epoll_wait (the really-ready set is compared). Trusted: TLC, dot parser, driver projection, a few white-box reads (running_modules, quit flag, mailbox descriptor, poll-source owner).'),
+ "C16": dict(engine="core", design="4, 3.6",
+   text='Same Core.tla: stash inside handlers (refused for high priority / not RUNNING), unstash(n) for n = 1, 2, SIZE_MAX from the top level and from handlers (one invocation of the current handler with the min(n, stashed) oldest events, returns that number), discarded on stop; replay compares invocations, return values and the stash length.',
+   note='Bounded: 2-3 modules, <=2 payloads in flight, mailbox capacity 2-3, callback nesting <=2; one context per thread. Poll batches are chosen by the program through a wrapped epoll_wait (the really-ready set is compared). Trusted: TLC, dot parser, driver projection, a few white-box reads (running_modules, quit flag, mailbox descriptor, poll-source owner).'),
+ "C17": dict(engine="core", design="4, 3.6",
+   text='Same Core.tla: handler stack per module (become/unbecome from outside and inside handlers, refused unless RUNNING, emptied on stop); replay uses distinguishable handler functions and compares which one receives every invocation (deliveries, unstash replays).',
+   note='Bounded: 2-3 modules, <=2 payloads in flight, mailbox capacity 2-3, callback nesting <=2; one context per thread. Poll batches are chosen by the program through a wrapped epoll_wait (the really-ready set is compared). Trusted: TLC, dot parser, driver projection, a few white-box reads (running_modules, quit flag, mailbox descriptor, poll-source owner).'),
+ "C20": dict(engine="core", design="4, 3.6",
+   text='Same Core.tla with a ledger of user descriptors (open / closed by auto-close, deferred while an event still references the source) and, on the implementation side, a ledger of every descriptor the library opens (pipe, epoll handle, virtual timerfd) through wrapped pipe/epoll_create1/timerfd_create/close: replay requires user descriptors to be closed exactly when the spec says, failing close() calls (double close) to be absent, and no library descriptor to be open in clean states.',
+   note='Bounded: 2-3 modules, <=2 payloads in flight, mailbox capacity 2-3, callback nesting <=2; one context per thread. Poll batches are chosen by the program through a wrapped epoll_wait (the really-ready set is compared). Trusted: TLC, dot parser, driver projection, a few white-box reads (running_modules, quit flag, mailbox descriptor, poll-source owner).'),
  "C05": dict(engine="structs", design="4/C05, 3.4",
    text="MapAbs.tla (dictionary with nondeterministic iteration order, key-copy ledger, destructor fates) is model-checked exhaustively by TLC on bounded configs (3 keys x 3 values, all flag combinations); its dumped state graph is replayed into the real map with plain keys, keys sharing one home slot and three key sets whose chains wrap around the end of the 256-slot table (all paths up to D mutating steps with all queries at every node, edge cover, random walks), comparing return values, full contents, length, iterator position, destructor counts and the allocator ledger (private key copies) after every step.",
    note="Bounded: 3 keys/3 values in E1/E2. Iteration order is followed by observation. Trusted: TLC, dot parser, driver projection, a copy of the public hash used only to search adversarial keys."),
@@ -64,7 +82,7 @@ def main():
                 "baseline_off_cmd": "cmake --build /repo/_build && ctest --test-dir /repo/_build -j8 --timeout 900",
                 "source_commits": [], "add_only": True},
       "engines": [
-        {"name": "core", "path": "spec/Core.tla spec/CoreMC.tla spec/Core_mc_*.cfg harness/drv_core.c harness/gw.h", "serves_properties": ["C01", "C02", "C07", "C08", "C15", "C19"], "kind_free_text": "TLC bounded model checking of a functional model of the core + replay of the dumped graph (API calls from top level and from callbacks) into the real library with wrapped epoll_wait/write/pipe/close"},
+        {"name": "core", "path": "spec/Core.tla spec/CoreMC.tla spec/Core_mc_*.cfg harness/drv_core.c harness/gw.h", "serves_properties": ["C01", "C02", "C03", "C07", "C08", "C09", "C13", "C15", "C16", "C17", "C19", "C20"], "kind_free_text": "TLC bounded model checking of a functional model of the core + replay of the dumped graph (API calls from top level and from callbacks) into the real library with wrapped epoll_wait/write/pipe/close"},
         {"name": "thpool", "path": "spec/Thpool.tla spec/ThpoolMC.tla harness/vp_sched.h harness/drv_thpool.c", "serves_properties": ["C06"], "kind_free_text": "TLC (safety + liveness) + controlled-schedule replay of the dumped state graph on the real thpool.c"},
         {"name": "structs", "path": "spec/{Seqs,Bst,MapAbs,Mem,MemTrace}.tla harness/drv_{seqs,bst,map,mem}.c harness/gw.h", "serves_properties": ["C05", "C10", "C11", "C12"], "kind_free_text": "TLC bounded model checking + replay of the dumped state graph into the real code + TLC trace validation"},
       ],
